@@ -71,7 +71,7 @@ ASSUMPTIONS = [
     "extension class (witness field embedded_in names the message)",
 ]
 NONTRIVIAL = ["rt", "pcell", "ovf"]
-DEADLINE = {"quick": 100, "thorough": 1200}
+DEADLINE = {"quick": 150, "thorough": 1200}
 
 DECODE_ERRORS = (SyntaxError, TLSIllegalParameterException, TLSDecodeError)
 
